@@ -192,7 +192,11 @@ def pFile : P (List Char × Option (List Char) × FileInfo) := do
   let path ← hexs
   let kind ← word
   let perm ← nat
-  let content ← hexs
+  let cw ← word
+  -- a file that is not valid UTF-8 is rejected by Parse: represent it by a text the lexer rejects
+  let content ← (match unhex cw with
+    | some c => pure c
+    | none => if (hexToBytes? cw).isSome then pure ['\x00'] else failure)
   if kind = "l" then pure (path, some content, ⟨false, perm, []⟩)
   else pure (path, none, ⟨kind = "d", perm, content⟩)
 
@@ -248,7 +252,7 @@ def handle (st : St) (line : String) : St × String :=
     | _, _, _, _ => (st, "bad-op")
   | ["p", hex] =>
     match decodeText hex with
-    | none => (st, "bad-op")
+    | none => (st, if (hexToBytes? hex).isSome then "err" else "bad-op")   -- not valid UTF-8: rejected (fix c17-invalid-utf8-rewritten)
     | some cs =>
       match parse st.K cs with
       | none => (st, "err")
@@ -266,6 +270,7 @@ def handle (st : St) (line : String) : St × String :=
       ({ st with schema := some si }, if ok then "schema ok" else "schema NOT-NODUP (section names or field keys repeat)")
     | none => (st, "bad-op")
   | "c" :: text :: rest =>
+    if (unhex text).isNone ∧ (hexToBytes? text).isSome then (st, "err:parse") else
     match st.schema, unhex text, runP pOracle rest with
     | some si, some cs, some tbl =>
       match parse st.K cs with
